@@ -32,6 +32,8 @@ type Step struct {
 	Kind   string `json:"kind"`   // generator label (tag only)
 	Batch  int    `json:"batch"`  // 0: the record alone; 1: [decoy, record]; 2: [record, decoy]; 3: [decoy, record, decoy] in ONE AnalyzeData call
 	Reconf bool   `json:"reconf"` // call ConfigurePulseLengths(len, pre) before the step (when the pair is legal)
+	Hold   bool   `json:"hold"`   // keep the analysed records and read their values only after ALL later steps of the history
+	View   int    `json:"view"`   // 0: matrices from mat.NewDense (contiguous); 1,2: Slice views into larger matrices (Stride > Cols)
 }
 
 type Case struct {
@@ -219,6 +221,38 @@ func dense(rows [][]float64) *mat.Dense {
 	return mat.NewDense(r, c, flat)
 }
 
+// denseView returns the same logical matrix as dense(rows), but as a Slice view into a larger matrix filled
+// with other numbers (row offset ro, column offset co, extra rows/columns after it): Stride > Cols.
+func denseView(rows [][]float64, ro, co, extra int) *mat.Dense {
+	r := len(rows)
+	c := len(rows[0])
+	big := mat.NewDense(ro+r+extra, co+c+extra, nil)
+	br, bc := big.Dims()
+	for i := 0; i < br; i++ {
+		for j := 0; j < bc; j++ {
+			big.Set(i, j, float64(1000+37*i-11*j))
+		}
+	}
+	for i := range rows {
+		for j, v := range rows[i] {
+			big.Set(ro+i, co+j, v)
+		}
+	}
+	return big.Slice(ro, ro+r, co, co+c).(*mat.Dense)
+}
+
+func matrixFor(rows [][]float64, view int, which int) *mat.Dense {
+	switch view {
+	case 1:
+		return denseView(rows, 0, 3+which, 2)
+	case 2:
+		return denseView(rows, 2-which, 0, 1+which)
+	case 3:
+		return denseView(rows, 1, 5, 0)
+	}
+	return dense(rows)
+}
+
 // ---------- running one case ----------
 
 func boolStr(b bool) string {
@@ -280,18 +314,32 @@ func runCase(c Case) lib.Result {
 	var terms []string
 	var outs []implOut
 	maxPre := -1
-	for _, s := range c.Steps {
-		term, out, nt := runStep(st, s, tags)
-		terms = append(terms, term)
-		outs = append(outs, out)
+	fins := make([]func() (string, implOut, bool), len(c.Steps))
+	terms = make([]string, len(c.Steps))
+	outs = make([]implOut, len(c.Steps))
+	done := make([]bool, len(c.Steps))
+	finish := func(i int) {
+		term, out, nt := fins[i]()
+		terms[i], outs[i], done[i] = term, out, true
 		if nt {
 			res.NonTrivial = true
+		}
+	}
+	for i, s := range c.Steps {
+		fins[i] = runStep(st, s, tags)
+		if !s.Hold {
+			finish(i)
 		}
 		if s.Pre < maxPre {
 			tags["pre-shorter-than-before"] = true
 		}
 		if s.Pre > maxPre {
 			maxPre = s.Pre
+		}
+	}
+	for i := range c.Steps {
+		if !done[i] {
+			finish(i)
 		}
 	}
 	switch {
@@ -309,7 +357,7 @@ func runCase(c Case) lib.Result {
 }
 
 // runStep analyses one record on the shared processor; returns the Coq term of type `case`.
-func runStep(st *benchState, c Step, tags map[string]bool) (string, implOut, bool) {
+func runStep(st *benchState, c Step, tags map[string]bool) func() (string, implOut, bool) {
 	n := len(c.Data)
 	data := make([]uint16, n)
 	for i, v := range c.Data {
@@ -336,7 +384,10 @@ func runStep(st *benchState, c Step, tags map[string]bool) (string, implOut, boo
 			st.reconfigure(n, p)
 		}
 		P, B = matrices(c, n)
-		err := b.Source().ConfigureProjectorsBases(0, dense(P), dense(B), "verif")
+		err := b.Source().ConfigureProjectorsBases(0, matrixFor(P, c.View, 0), matrixFor(B, c.View, 1), "verif")
+		if c.View != 0 {
+			tags["proj-slice-view"] = true
+		}
 		out.Accepted = err == nil
 		st.loaded = out.Accepted
 		tags[fmt.Sprintf("proj-k%d", c.K)] = true
@@ -352,7 +403,8 @@ func runStep(st *benchState, c Step, tags map[string]bool) (string, implOut, boo
 		tags["pre!=configured"] = true
 	}
 	dataTerm := lib.ZListInt(c.Data)
-	var rec dastard.VerifRecord
+	var held *dastard.VerifHeld
+	idx := 0
 	func() {
 		defer func() {
 			if e := recover(); e != nil {
@@ -360,7 +412,7 @@ func runStep(st *benchState, c Step, tags map[string]bool) (string, implOut, boo
 			}
 		}()
 		if c.Batch == 0 || n == 0 {
-			rec = dsp.VerifAnalyze(data, c.Pre, c.Signed)
+			held = dsp.VerifAnalyzeHeld([][]uint16{data}, c.Pre, c.Signed)
 			return
 		}
 		// the same record analysed next to other records in one call: results must not depend on neighbours
@@ -371,84 +423,91 @@ func runStep(st *benchState, c Step, tags map[string]bool) (string, implOut, boo
 		tags[fmt.Sprintf("batch%d", c.Batch)] = true
 		switch c.Batch {
 		case 1:
-			rec = dsp.VerifAnalyzeBatch([][]uint16{decoy, data}, c.Pre, c.Signed)[1]
+			held, idx = dsp.VerifAnalyzeHeld([][]uint16{decoy, data}, c.Pre, c.Signed), 1
 		case 2:
-			rec = dsp.VerifAnalyzeBatch([][]uint16{data, decoy}, c.Pre, c.Signed)[0]
+			held, idx = dsp.VerifAnalyzeHeld([][]uint16{data, decoy}, c.Pre, c.Signed), 0
 		default:
-			rec = dsp.VerifAnalyzeBatch([][]uint16{decoy, data, decoy}, c.Pre, c.Signed)[1]
+			held, idx = dsp.VerifAnalyzeHeld([][]uint16{decoy, data, decoy}, c.Pre, c.Signed), 1
 		}
 	}()
-	if out.Panic {
-		tags["panic"] = true
-		return fmt.Sprintf("KPanic %s %s %s", boolStr(c.Signed), lib.Z(int64(c.Pre)), dataTerm), out, false
+	if c.Hold {
+		tags["held"] = true
 	}
-	var term string
-	vals := []float64{rec.PretrigMean, rec.PretrigDelta, rec.PulseAverage, rec.PulseRMS, rec.PeakValue}
-	sc := make([]string, len(vals))
-	for i, v := range vals {
-		sc[i] = hexf(v)
-		out.Scalars = append(out.Scalars, strconv.FormatFloat(v, 'x', -1, 64))
-	}
-	for _, v := range rec.ModelCoefs {
-		out.Coefs = append(out.Coefs, strconv.FormatFloat(v, 'x', -1, 64))
-	}
-	out.Resid = strconv.FormatFloat(rec.ResidualStdDev, 'x', -1, 64)
-	if withProj {
-		term = fmt.Sprintf("KP %s %s %s\n  %s\n  %s\n  %s %s %s %s",
-			boolStr(c.Signed), lib.Z(int64(c.Pre)), dataTerm, hexMatrix(P), hexMatrix(B), boolStr(out.Accepted),
-			strings.Join(sc, " "), hexList(rec.ModelCoefs), hexf(rec.ResidualStdDev))
-	} else {
-		term = fmt.Sprintf("K0 %s %s %s %s", boolStr(c.Signed), lib.Z(int64(c.Pre)), dataTerm, strings.Join(sc, " "))
-	}
-	// tags and the non-triviality rule: mu not an integer and at least one word >= 2^15
-	if c.Signed {
-		tags["signed"] = true
-	}
-	big := false
-	var s0 int64
-	for i, v := range c.Data {
-		if v >= 32768 {
-			big = true
+	// the values are read when the caller asks for them: at once, or (Hold) after all later steps
+	return func() (string, implOut, bool) {
+		if out.Panic {
+			tags["panic"] = true
+			return fmt.Sprintf("KPanic %s %s %s", boolStr(c.Signed), lib.Z(int64(c.Pre)), dataTerm), out, false
 		}
-		if i < c.Pre {
-			if c.Signed {
-				s0 += int64(int16(uint16(v)))
-			} else {
-				s0 += int64(v)
+		rec := held.Read(idx)
+		var term string
+		vals := []float64{rec.PretrigMean, rec.PretrigDelta, rec.PulseAverage, rec.PulseRMS, rec.PeakValue}
+		sc := make([]string, len(vals))
+		for i, v := range vals {
+			sc[i] = hexf(v)
+			out.Scalars = append(out.Scalars, strconv.FormatFloat(v, 'x', -1, 64))
+		}
+		for _, v := range rec.ModelCoefs {
+			out.Coefs = append(out.Coefs, strconv.FormatFloat(v, 'x', -1, 64))
+		}
+		out.Resid = strconv.FormatFloat(rec.ResidualStdDev, 'x', -1, 64)
+		if withProj {
+			term = fmt.Sprintf("KP %s %s %s\n  %s\n  %s\n  %s %s %s %s",
+				boolStr(c.Signed), lib.Z(int64(c.Pre)), dataTerm, hexMatrix(P), hexMatrix(B), boolStr(out.Accepted),
+				strings.Join(sc, " "), hexList(rec.ModelCoefs), hexf(rec.ResidualStdDev))
+		} else {
+			term = fmt.Sprintf("K0 %s %s %s %s", boolStr(c.Signed), lib.Z(int64(c.Pre)), dataTerm, strings.Join(sc, " "))
+		}
+		// tags and the non-triviality rule: mu not an integer and at least one word >= 2^15
+		if c.Signed {
+			tags["signed"] = true
+		}
+		big := false
+		var s0 int64
+		for i, v := range c.Data {
+			if v >= 32768 {
+				big = true
+			}
+			if i < c.Pre {
+				if c.Signed {
+					s0 += int64(int16(uint16(v)))
+				} else {
+					s0 += int64(v)
+				}
 			}
 		}
+		nonInt := c.Pre > 0 && s0%int64(c.Pre) != 0
+		if big {
+			tags["word>=2^15"] = true
+		}
+		if nonInt {
+			tags["mu-noninteger"] = true
+		}
+		if math.IsNaN(rec.PulseRMS) {
+			tags["rms-nan"] = true
+		}
+		if rec.PulseRMS == 0 {
+			tags["rms-zero"] = true
+		}
+		if rec.PeakValue == 0 {
+			tags["peak-zero"] = true
+		}
+		switch {
+		case n >= 1000:
+			tags["n>=1000"] = true
+		case n >= 100:
+			tags["n>=100"] = true
+		default:
+			tags["n<100"] = true
+		}
+		switch {
+		case c.Pre <= 5:
+			tags[fmt.Sprintf("p=%d", c.Pre)] = true
+		default:
+			tags["p>5"] = true
+		}
+		return term, out, big && nonInt && c.Pre >= 3 && n >= c.Pre+1
 	}
-	nonInt := c.Pre > 0 && s0%int64(c.Pre) != 0
-	if big {
-		tags["word>=2^15"] = true
-	}
-	if nonInt {
-		tags["mu-noninteger"] = true
-	}
-	if math.IsNaN(rec.PulseRMS) {
-		tags["rms-nan"] = true
-	}
-	if rec.PulseRMS == 0 {
-		tags["rms-zero"] = true
-	}
-	if rec.PeakValue == 0 {
-		tags["peak-zero"] = true
-	}
-	switch {
-	case n >= 1000:
-		tags["n>=1000"] = true
-	case n >= 100:
-		tags["n>=100"] = true
-	default:
-		tags["n<100"] = true
-	}
-	switch {
-	case c.Pre <= 5:
-		tags[fmt.Sprintf("p=%d", c.Pre)] = true
-	default:
-		tags["p>5"] = true
-	}
-	return term, out, big && nonInt && c.Pre >= 3 && n >= c.Pre+1
 }
 
 func sortedTags(m map[string]bool) []string {
@@ -649,12 +708,22 @@ func corpus() []Case {
 			{Pre: 4, Data: pw, K: 2, MStyle: 1, MSeed: 7, Bad: 2, Kind: "corpus"},
 			{Pre: 4, Data: pw, K: 2, MStyle: 1, MSeed: 7, Bad: 3, Kind: "corpus"},
 			{Pre: 3, Data: pw, Kind: "corpus"}}},
+		// projectors and basis that are Slice views into larger matrices (Stride > Cols)
+		{Steps: []Step{
+			{Pre: 4, Data: pw, K: 2, MStyle: 1, MSeed: 7, View: 1, Kind: "corpus-view"},
+			{Pre: 3, Data: []int{9, 9, 9, 500, 400, 300}, K: 3, MStyle: 0, MSeed: 11, View: 2, Kind: "corpus-view"},
+			{Pre: 5, Data: ramp(20, 5, 30000, 11), K: 2, MStyle: 3, MSeed: 3, View: 3, Signed: true, Kind: "corpus-view"}}},
+		// records held while later blocks are analysed with the same projectors; their values are read at the end
+		{Steps: []Step{
+			{Pre: 4, Data: pw, K: 2, MStyle: 1, MSeed: 7, Hold: true, Kind: "corpus-held"},
+			{Pre: 4, Data: []int{128, 64, 32, 16, 8, 4, 2, 1}, K: 2, MStyle: 1, MSeed: 7, Hold: true, Batch: 1, Kind: "corpus-held"},
+			{Pre: 4, Data: []int{7, 7, 7, 7, 900, 800, 700, 600}, K: 2, MStyle: 1, MSeed: 7, Kind: "corpus-held"}}},
 	}
 }
 
 func gen(seed uint64, tier string) []interface{} {
 	r := lib.NewRng(seed)
-	nScalar, nBig, nProj, nProjBig, nBad := 260, 6, 110, 3, 9
+	nScalar, nBig, nProj, nProjBig, nBad := 230, 5, 100, 3, 9
 	if tier == "thorough" {
 		nScalar, nBig, nProj, nProjBig, nBad = 3000, 60, 1200, 30, 60
 	}
@@ -674,7 +743,7 @@ func gen(seed uint64, tier string) []interface{} {
 		n, p := genSizes(q, i >= nScalar)
 		kind := kinds[i%len(kinds)]
 		steps = append(steps, Step{Signed: q.Bool(), Pre: p, Data: genRecord(q, kind, n, p), Kind: kind,
-			Batch: q.Pick([]int{0, 0, 1, 2, 3}), Reconf: q.Chance(1, 3)})
+			Batch: q.Pick([]int{0, 0, 1, 2, 3}), Reconf: q.Chance(1, 3), Hold: q.Bool()})
 	}
 	for i := 0; i < nProj+nProjBig+nBad; i++ {
 		q := r.Fork()
@@ -690,7 +759,8 @@ func gen(seed uint64, tier string) []interface{} {
 		}
 		kind := kinds[(i*7+3)%len(kinds)]
 		c := Step{Signed: q.Bool(), Pre: p, Data: genRecord(q, kind, n, p), Kind: kind,
-			K: k, MStyle: i % 4, MSeed: q.U64(), Batch: q.Pick([]int{0, 0, 1, 2, 3}), Reconf: q.Chance(1, 3)}
+			K: k, MStyle: i % 4, MSeed: q.U64(), Batch: q.Pick([]int{0, 0, 1, 2, 3}), Reconf: q.Chance(1, 3), Hold: q.Bool(),
+			View: q.Pick([]int{0, 0, 1, 2, 3})}
 		if i >= nProj+nProjBig {
 			c.Bad = 1 + i%3
 		}
